@@ -487,3 +487,46 @@ func VX_C19_OverlappingProxied(args []int) {
 	}
 	vxCover("c19.overlapping")
 }
+
+func init() { vxRegister("VX_C19_PoolForwarderDown", VX_C19_PoolForwarderDown) }
+
+// vxDownFwd is a forwarder that cannot obtain a backend connection (what a
+// connection-pool forwarder returns when the backend is down): the call is
+// never sent; the failure comes back as a local command with a status of the
+// connection error range.
+type vxDownFwd struct{ code int32 }
+
+func (f *vxDownFwd) Call(uri string, arg interface{}, result interface{}, setting ...erpc.MessageSetting) erpc.CallCmd {
+	return erpc.NewFakeCallCmd(uri, arg, result, erpc.NewStatus(f.code, "no connection to the backend", "connection refused"))
+}
+func (f *vxDownFwd) Push(uri string, arg interface{}, setting ...erpc.MessageSetting) *erpc.Status {
+	return erpc.NewStatus(f.code, "no connection to the backend", "connection refused")
+}
+
+// VX_C19_PoolForwarderDown: the chosen forwarder cannot reach its backend at
+// all (the call is never sent; it reports a status of the connection error
+// range, code symbolic in 100..199): the proxied call surfaces as Bad Gateway.
+// args: kind(0 CALL, 1 PUSH)
+func VX_C19_PoolForwarderDown(args []int) {
+	code := 100 + vxInt32("code")%100
+	vxAssume(code >= 100 && code <= 199)
+	fwd := &vxDownFwd{code: code}
+	front := erpc.NewPeer(erpc.PeerConfig{}, NewPlugin(func(*Label) Forwarder { return fwd }))
+	fconn := newVxConn("proxy:1", "caller:7")
+	_, st := front.ServeConn(fconn)
+	vxAssume(st.OK())
+	if args[0] == 0 {
+		fconn.feed(vxFrame(erpc.TypeCall, 11, "/back/end", []byte("q")))
+		vxWaitIdle()
+		vxAssert(fconn.nWrites() == 1, "[C03] the caller is answered")
+		if fconn.nWrites() == 1 {
+			rm, err := vxParse(fconn.writes[0])
+			vxAssert(err == nil && rm.Status(true).Code() == erpc.CodeBadGateway, "a backend connection failure reported by the forwarder itself (the call was never sent) surfaces as Bad Gateway")
+		}
+	} else {
+		fconn.feed(vxFrame(erpc.TypePush, 12, "/back/push", []byte("q")))
+		vxWaitIdle()
+		vxAssert(fconn.nWrites() == 0, "a PUSH is never answered")
+	}
+	vxCover("c19.pool-forwarder-down")
+}
